@@ -751,6 +751,10 @@ func (g *gen) mutMultimap(v reflect.Value, t *Type, nav []NavStep, depth int, st
 					c.Tag, c.Get, c.GetI1 = 'F', "Value", i+1
 				}
 				g.do(nav, c)
+			} else if vt.Kind == KStruct && vt.Def != nil && vt.Def.Dict != "" {
+				// a dictionary-struct value may be a frozen shared object: it is replaced through
+				// SetValue, never modified in place (the API refuses that by design)
+				g.setDictElem(v, "SetValue", i, vt, nav, depth, stack)
 			} else {
 				g.mutNode(call(v, "Value", iv(i))[0], vt, with(nav, "Value", i), depth+1, stack)
 			}
